@@ -61,7 +61,8 @@ func (c *Case) exchangeToks(idn int) []string {
 			fr = c.Framing
 		}
 	}
-	return []string{"id=" + strconv.Itoa(idn), "kind=" + c.modelKind(), "up=" + core.B01(c.Upstream != ""), "close=" + core.B01(c.reqClose()), "minor=" + strconv.Itoa(c.ReqMinor),
+	return []string{"id=" + strconv.Itoa(idn), "kind=" + c.modelKind(), "up=" + core.B01(c.Upstream != ""),
+		"uptls=" + core.B01(upstreamFault(c.Upstream) != "" && strings.HasPrefix(c.Upstream, "s")), "close=" + core.B01(c.reqClose()), "minor=" + strconv.Itoa(c.ReqMinor),
 		"head=" + strconv.Itoa(head), "framing=" + fr, "body=" + strconv.Itoa(body)}
 }
 
@@ -133,15 +134,19 @@ func rulesTok(rules []string) string {
 // for resets, the ones that arise when the reset overtakes bytes or surfaces as such.
 func (c *Case) faults(observedBody int) []string {
 	rst := core.B01(c.Reset)
-	if c.Upstream == "dead" {
-		return []string{"dial-refused"}
+	dialFault := func(f string) []string {
+		if f == "reset" {
+			// where the reset surfaces is the scheduler's choice: in the connect, the first write, the first read
+			return []string{"dial-reset:read", "dial-reset:write", "dial-reset:dial"}
+		}
+		return []string{"dial-" + f}
+	}
+	if uf := upstreamFault(c.Upstream); uf != "" {
+		return dialFault(uf)
 	}
 	switch c.Kind {
 	case "dial":
-		if c.Fault == "timeout" {
-			return []string{"dial-timeout"}
-		}
-		return []string{"dial-refused"}
+		return dialFault(c.Fault)
 	case "tls":
 		return []string{"tls:" + c.Fault}
 	case "malformed":
@@ -362,6 +367,8 @@ const (
 	clauseRelay    = "a relayed CONNECT rejection is a well-formed answer to the client's request: its protocol version, Connection: close as it asked"
 )
 
+var opErrorRe = regexp.MustCompile(`^fwdverif (proxyconnect|dial|read|write) tcp[46]?\b`)
+
 var hostIDRe = regexp.MustCompile(`\b(c[0-9]+|w[0-9]+|r[0-9]+)\.[a-z-]+\.test`)
 
 // nonUTF8Host reports whether the host a client request names (authority of an absolute-form or
@@ -436,6 +443,16 @@ func knownClass(c *Case) string {
 		if c.Via == "connect" && c.Fault == "stall" {
 			return "connect-reply-timeout" // F34
 		}
+	case "reply":
+		if c.At != "connect" {
+			method := c.Method
+			if method == "" {
+				method = "GET"
+			}
+			if m := meaningOf(c.replyBytes(), method, true); m.reject == "" && m.status == 101 && !m.switchP {
+				return "switching-protocols-not-a-switch" // F42
+			}
+		}
 	case "tls", "label":
 		if c.Kind == "label" && c.What != "tls" {
 			return ""
@@ -502,6 +519,8 @@ func judge(ctx *core.Ctx, c *Case, o *Obs) {
 		judgeCounter(ctx, c, o)
 	case "label":
 		judgeLabel(ctx, c, o)
+	case "reply":
+		judgeReply(ctx, c, o)
 	default:
 		judgeFault(ctx, c, o)
 	}
@@ -510,7 +529,14 @@ func judge(ctx *core.Ctx, c *Case, o *Obs) {
 func judgeFault(ctx *core.Ctx, c *Case, o *Obs) {
 	impl := describeObs(o)
 	class := knownClass(c)
-	ctx.Count("via/" + c.Via + map[string]string{"": "", "up": "+upstream", "dead": "+dead-upstream"}[c.Upstream])
+	ctx.Count("via/" + c.Via + map[string]string{"": "", "up": "+upstream"}[c.Upstream])
+	if c.Kind == "dial" {
+		party := "origin"
+		if upstreamFault(c.Upstream) != "" {
+			party = map[bool]string{false: "http-upstream", true: "https-upstream"}[strings.HasPrefix(c.Upstream, "s")]
+		}
+		ctx.Count("dial/" + c.Fault + "/" + party + "/" + c.Via)
+	}
 	if c.Kind == "cut" {
 		where := "complete"
 		switch {
@@ -558,14 +584,27 @@ func judgeFault(ctx *core.Ctx, c *Case, o *Obs) {
 	}
 
 	// ---- correspondence with the model ----
-	var modelFirst string
+	var modelFirst, modelMatched string
 	matched := skipModel
 	if !skipModel {
 		obsBody := -1
 		if s.kind == "prefix" {
 			obsBody = s.body
 		}
-		for i, f := range c.faults(obsBody) {
+		fs := c.faults(obsBody)
+		if s.res != nil && len(fs) > 1 && strings.HasPrefix(fs[0], "dial-reset:") {
+			// the error text says where the reset surfaced
+			if m := opErrorRe.FindStringSubmatch(s.res.Get("X-Forwarder-Error")); m != nil {
+				op := m[1]
+				if op == "proxyconnect" {
+					if m2 := regexp.MustCompile(`proxyconnect tcp[46]?: (dial|read|write) `).FindStringSubmatch(s.res.Get("X-Forwarder-Error")); m2 != nil {
+						op = m2[1]
+					}
+				}
+				sort.SliceStable(fs, func(a, b int) bool { return fs[a] == "dial-reset:"+op && fs[b] != "dial-reset:"+op })
+			}
+		}
+		for i, f := range fs {
 			ans := ctx.Model.MustAsk(append([]string{"C12", "stream", "fault=" + f}, ex...)...)
 			if i == 0 {
 				modelFirst = ans
@@ -576,7 +615,8 @@ func judgeFault(ctx *core.Ctx, c *Case, o *Obs) {
 			}
 			if s.obsTok != "" && sameObs(ans, s.obsTok) {
 				matched = true
-				if i > 0 {
+				modelMatched = ans
+				if i > 0 && c.Kind != "dial" {
 					ctx.Count("reset-overtook-or-surfaced")
 				}
 				break
@@ -586,6 +626,17 @@ func judgeFault(ctx *core.Ctx, c *Case, o *Obs) {
 			ctx.TraceValidated()
 		} else {
 			ctx.Disagree(clauseStream, c, s.kind+" | "+s.obsTok+" | "+impl, modelFirst)
+		}
+		// The metric label is not on the wire, but the error text is: it spells the chain of *net.OpError
+		// ("proxyconnect tcp: dial tcp …: i/o timeout"), and the label is net_<Op of the outermost one>.
+		if mf := strings.Fields(modelMatched); matched && c.Kind == "dial" && s.kind == "error" && len(mf) > 3 && mf[0] == "error" {
+			if m := opErrorRe.FindStringSubmatch(s.res.Get("X-Forwarder-Error")); m != nil {
+				if want := string(core.MustUnHex(mf[3])); want != "net_"+m[1] {
+					ctx.Disagree("errorResponse label (Model.C12.classify) = net_<Op of the outermost *net.OpError in the error text>", c, impl, want)
+				} else {
+					ctx.Count("dial/error-chain/" + m[1])
+				}
+			}
 		}
 	}
 
@@ -808,9 +859,9 @@ func checkRelay(ctx *core.Ctx, c *Case, s *seen, fail func(clause, detail string
 func checkStatus(ctx *core.Ctx, c *Case, s *seen, fail func(clause, detail string)) {
 	want := 0
 	switch {
-	case c.Upstream == "dead":
-		want = 502
-	case c.Kind == "dial" && c.Fault == "refused":
+	case upstreamFault(c.Upstream) != "":
+		want = map[string]int{"refused": 502, "timeout": 504, "reset": 502}[upstreamFault(c.Upstream)]
+	case c.Kind == "dial" && (c.Fault == "refused" || c.Fault == "reset"):
 		want = 502
 	case c.Kind == "dial" && c.Fault == "timeout":
 		want = 504
